@@ -212,10 +212,10 @@ def build(program):
                     kw['_returns'] = T(ret)
             if m.get('in_header'):
                 hs = [b.classes[h] for h in m['in_header']]
-                kw['_in_header'] = hs[0] if len(hs) == 1 else hs
+                kw['_in_header'] = tuple(hs)
             if m.get('out_header'):
                 hs = [b.classes[h] for h in m['out_header']]
-                kw['_out_header'] = hs[0] if len(hs) == 1 else hs
+                kw['_out_header'] = tuple(hs)
             if m.get('throws'):
                 kw['_throws'] = [b.faults[x] for x in m['throws']]
             anames = [a[0] for a in m.get('args', [])]
@@ -263,6 +263,8 @@ def to_native(b, t, v):
         return inst
     if k == 'p' and t[1] == 'ByteArray' and isinstance(v, (bytes, bytearray)):
         return [bytes(v)]
+    if k == 'e':
+        return getattr(b.enums[t[1]], v)
     return v
 
 
@@ -300,4 +302,9 @@ def from_native(b, t, v):
             except TypeError:
                 return ('!unexpected', type(v).__name__, repr(v)[:80])
         return v
+    if k == 'e':
+        for name in b.program['enums'][t[1]]:
+            if getattr(b.enums[t[1]], name) is v:
+                return name
+        return ('!unexpected', type(v).__name__, repr(v)[:80])
     return v
